@@ -19,7 +19,9 @@ TEXTS = ['ab cd_ef', "it's 100%41+x y", '1234567.891', 'Hello big World foo', ''
          '3.14159', '-1234.56789012', '1e+12345', '.1234567']
 OTHERS = [other('num', '1234567', False), other('num', '0', False), other('num', '12345.5', False),
           other('none', 'None', True), other('elist', '[]', True), other('num', '1234.5678', False),
-          other('num', '-98765.4321012', False)]
+          other('num', '-98765.4321012', False),
+          # zeros of other numeric types: false, equal to 0, hence not null
+          other('zero', '0', False), other('zero', '0.00', False), other('zero', '0j', False)]
 
 
 def sweeps(tier):
